@@ -18,3 +18,4 @@ import RodbusModel.Props.C10
 #print axioms Rodbus.Client.bal_reach
 #print axioms Rodbus.Client.tidy_reach
 #print axioms Rodbus.Client.drain_idle
+#print axioms Rodbus.Client.session_ending_table_correct
